@@ -132,6 +132,12 @@ func RegisterSV(ld *Loaded) {
 		}
 		return v
 	})
+	reg("MustTerminate", func(fr *frame, args []value) value {
+		p := fr.i.path
+		p.mustTerminate = p.concreteString(args[1], "site")
+		p.sites[p.mustTerminate]++
+		return nil
+	})
 	reg("FloatSame", func(fr *frame, args []value) value {
 		p := fr.i.path
 		return p.mkBool(p.ts.Eq(p.term(args[1]), p.term(args[2])))
@@ -638,6 +644,12 @@ func (w *Worker) runPath(ld *Loaded, harness string, prefix []int64) (res *PathR
 					res.End = "unsupported"
 				case abBudget:
 					res.End = "budget"
+					if p.mustTerminate != "" {
+						// the harness said this part has to end: running out
+						// of budget is a failed assertion, not a bound
+						res.End = "panic"
+						x.why = "did not terminate within the instruction budget (" + p.mustTerminate + ")"
+					}
 				case abDone:
 					res.End = "ok"
 				}
@@ -678,7 +690,11 @@ func (w *Worker) runPath(ld *Loaded, harness string, prefix []int64) (res *PathR
 			defer func() { recover() }()
 			r, mv := p.sess.CheckWith(nil, p.inputTerms())
 			if r == Sat {
-				c := p.mkCand("harness.panic", "", mv)
+				site := "harness.panic"
+				if p.mustTerminate != "" && strings.HasPrefix(res.Why, "did not terminate") {
+					site = p.mustTerminate
+				}
+				c := p.mkCand(site, "", mv)
 				c.PanicMsg = res.Why
 				p.cands = append(p.cands, c)
 			}
